@@ -43,7 +43,8 @@ LEVEL_TEXT = (
     "(at quiescence: the current state of every object), listing_yields_live, deliver_in_order, resume_point, relist_on_410 (both "
     "forms, run-level), respond_never_fails, unknown_error_raises, failed_is_final, fresh_list_on_resume, quiescence_reachable "
     "(possibility under a cooperative environment; no fairness/liveness is proved); PARTIAL: paused_silent_partial (guard: no attempt "
-    "re-sent by api.request's retry loop; paused_retry_witness = open C19-F2); LIMIT with witness: deleted_in_relist_gap_witness "
+    "re-sent by api.request's retry loop; paused_retry_witness = open C19-F2, listings only; paused_no_watch_attempt: no watch request "
+    "is sent or re-sent while paused); LIMIT with witness: deleted_in_relist_gap_witness "
     "(open C19-F5). For ALL histories of insight revisions and watcher deaths: adjust_keys, watchers_nodup, kept_tasks_kept, "
     "served_pairs_have_live_watcher; PARTIAL: exactly_one_watch_partial (guards: fixed mode — cluster-wide incl. the empty start-up "
     "revisions, or namespaced —, stable scope, and in namespaced mode a namespace served or no cluster-scoped resource; "
@@ -56,7 +57,7 @@ THEOREMS = [("Kopf.Props.C19", "Kopf.C19." + n) for n in [
     # one watch-stream, all adversary scripts
     "consumer_view_is_server_state", "no_skip_inv", "no_skip", "listing_yields_live", "deleted_in_relist_gap_witness",
     "deliver_in_order", "resume_point", "relist_on_410", "respond_never_fails", "unknown_error_raises", "failed_is_final",
-    "paused_silent_partial", "paused_retry_witness", "pause_noticed_is_quiet", "fresh_list_on_resume", "quiescence_reachable",
+    "paused_silent_partial", "paused_retry_witness", "paused_no_watch_attempt", "pause_noticed_is_quiet", "fresh_list_on_resume", "quiescence_reachable",
     # adjust_tasks over histories of revisions and task deaths
     "adjust_keys", "watchers_nodup", "kept_tasks_kept", "served_pairs_have_live_watcher",
     "exactly_one_watch_partial", "exactly_one_watch_lingering_witness",
@@ -128,7 +129,8 @@ def extract(ctx: Ctx) -> None:
 
 
 F1_SIG = {"site": "watching.continuous_watch", "shape": "HTTP 410 on the watch request is not treated as too-old: no re-list"}
-F2_SIG = {"site": "api.request", "shape": "retry attempts of a list/watch request begun before the pause are re-sent while paused"}
+# the watch half was repaired in kopf d8da165 (api.stream's stopper callback); what remains is the listing, which has no stopper
+F2_SIG = {"site": "fetching.list_objs", "shape": "retry attempts of a list request begun before the pause are re-sent while paused"}
 F3_SIG = {"site": "orchestration.terminate_redundancies", "shape": "cluster-scoped watcher survives the removal of the last served namespace"}
 
 # C19-F4 was repaired in kopf 9ef1bcb; the signature stays so that a regression is reported as a VIOLATION
@@ -266,6 +268,8 @@ def derive(obs: list) -> dict:
     stream_open = False
     absorb410 = False
     expect_closed = False
+    expect_cancel = False
+    watch_pending = False
     first_attempt = False
     list_rv = 0
 
@@ -308,9 +312,13 @@ def derive(obs: list) -> dict:
             add(["notice"])
             expect_closed = stream_open
             stream_open = False
+            expect_cancel = watch_pending      # the stopper's callback cancels the pending watch request
+            watch_pending = False
         elif k == "req":
             absorb410 = False
             first_attempt = True
+            expect_cancel = False
+            watch_pending = rec[1] == "watch"
             out(["reqList"] if rec[1] == "list" else ["reqWatch", int(rec[2]) if rec[2] is not None else -1])
         elif k == "http":
             if first_attempt:
@@ -320,6 +328,12 @@ def derive(obs: list) -> dict:
                 out(["retryList"] if rec[1] == "list" else ["retryWatch", int(rec[2]) if rec[2] is not None else -1])
         elif k == "rsp":
             kind, how, extra = rec[1], rec[2], rec[3]
+            watch_pending = False
+            if expect_cancel and kind == "watch":
+                expect_cancel = False
+                if how != "cancelled":
+                    add(["respond"] if how in ("ok", "gone") else ["failReq", how if how in ("conn", "timeout", "tooMany", "fatal") else "timeout"])
+                continue        # the model's `notice` has already ended the request (answers after it change nothing)
             if how in ("ok", "gone"):
                 add(["respond"])
                 if kind == "list" and how == "ok":
@@ -496,8 +510,11 @@ def oracle_stream(sc: dict, r: dict) -> list[tuple[str, dict]]:
                 if first:
                     fails.append((f"a {a['kind']} request was issued at t={a['t']} while paused since t={p0}",
                                   {"site": "watching.streaming_block", "shape": "list/watch request issued while paused"}))
+                elif a["kind"] == "list":
+                    fails.append((f"retry attempt of a list request re-sent at t={a['t']} while paused since t={p0}", F2_SIG))
                 else:
-                    fails.append((f"retry attempt of a {a['kind']} request re-sent at t={a['t']} while paused since t={p0}", F2_SIG))
+                    fails.append((f"retry attempt of a watch request re-sent at t={a['t']} while paused since t={p0}",
+                                  {"site": "api.stream", "shape": "watch request re-sent while paused (stopper did not cancel it)"}))
     # -- the end of the run is quiescent: what the consumer holds must be what the server holds ----
     killers = {"500", "403", "404"}
     injected_fatal = any(o[1] == "fail" and o[3] in killers for o in sc["ops"])
